@@ -4,6 +4,7 @@ import (
 	"fmt"
 	"sync"
 
+	"go.sia.tech/core/types"
 	"verif/internal/bfs"
 	"verif/internal/node"
 	"verif/internal/univ"
@@ -99,7 +100,44 @@ type exploreStats struct {
 	corruptHeader, corruptBody int
 }
 
+// c01RequireHeightContract: a v1 contract whose proof window ends exactly at the v2 require height (or one
+// above/below it). Consensus demands an empty v1 supplement from that height on, so the contract is simply
+// never expired; the blocks at and above the require height are valid (reference) and must be adopted.
+func c01RequireHeightContract() {
+	for _, delta := range []int{-1, 0, 1} {
+		u := univ.NewUniverse(fmt.Sprintf("v1-contract-window-end-at-require%+d", delta), univ.RegimeX)
+		req := u.Net.HardforkV2.RequireHeight
+		L := u.Nodes[0].L
+		own := univ.OwnedSC(L, u.As[1].Addr)
+		end := uint64(int(req) + delta)
+		txn, _ := univ.V1Contract(L.State, u.As[1], u.As[2], own[0], end-1, end, 0, types.Hash256{}, 0)
+		k := u.Add(0, 0, []types.Transaction{txn}, nil, "form")
+		for u.Nodes[k].Valid && u.Nodes[k].Height < req+2 {
+			k = u.Add(k, 0, nil, nil, fmt.Sprintf("h%d", u.Nodes[k].Height+1))
+		}
+		if !u.Nodes[k].Valid {
+			run.Violate("c01:require-height-setup", fmt.Sprintf("%s: the reference rejects the chain: %s", u.Name, u.Nodes[k].Err), nil)
+			continue
+		}
+		n := node.New(u)
+		run.Add(1, 1, 1, 1)
+		path := u.PathTo(k)
+		for _, b := range path {
+			if err := n.CM.AddBlocks(u.Blocks([]int{b})); err != nil {
+				run.Violate("c01:valid-block-rejected:v1-contract-expiring-at-require-height", fmt.Sprintf("%s: block %s at height %d is valid (reference replay with core/consensus) but AddBlocks fails: %v - every block at that height fails the same way, the chain cannot grow", u.Describe(), u.Nodes[b].Label, u.Nodes[b].Height, err), map[string]any{"universe": u.Describe()})
+				break
+			}
+		}
+		if n.TipNode() == k {
+			if err := n.Audit(); err != nil {
+				run.Violate("c01:audit", u.Describe()+": "+err.Error(), nil)
+			}
+		}
+	}
+}
+
 func c01() {
+	c01RequireHeightContract()
 	n, depth := 4, 5
 	if run.Thorough() {
 		n, depth = 5, 7
